@@ -296,11 +296,25 @@ def lib_cases(thorough, rng):
              ('typed_data', lambda: parser.typed_data(tag_type=0xC3), b'\x01\x00\x02\x00\x03\x00'),
              ('CPF', lambda: parser.CPF(), cpf([(0x0000, 0, b''), (0x00B2, len(ucmm), ucmm)]) + b'Z'),
              ('enip_machine', lambda: parser.enip_machine(), struct.pack('<HHII8sI', 0x65, 4, 7, 0, b'ctxtctxt', 0) + b'\x01\x00\x00\x00Z')]
+    ucmm = bytes([0x4C, 0x02, 0x20, 0x02, 0x24, 0x01, 0x01, 0x00])
+    usend = bytes([0x52, 0x02, 0x20, 0x06, 0x24, 0x01, 0x05, 0x9D, len(ucmm), 0x00]) + ucmm + bytes([0x01, 0x00, 0x01, 0x00])
+    wraps += [('unconnected_send', lambda: parser.unconnected_send(), usend + b'Z'),
+              ('send_data', lambda: parser.send_data(), struct.pack('<IH', 0, 5) + cpf([(0x0000, 0, b''), (0x00B2, len(usend), usend)]) + b'Z'),
+              ('typed_data(REAL)', lambda: parser.typed_data(tag_type=0xCA), bytes(range(8))),
+              ('typed_data(BOOL)', lambda: parser.typed_data(tag_type=0xC1), b'\x00\x01\xff'),
+              ('typed_data(SSTRING)', lambda: parser.typed_data(tag_type=0xDA), b'\x02ab\x00\x01c')]
     for name, mk, data in wraps:
         for k in range(0, len(data) + 2):
             def mkw(mk=mk, k=k):
                 return A.dfa(name='lim', context='w', initial=mk(), limit=k, terminal=True)
             out.append(('limit%d(%s)' % (k, name), mkw, data, ('limit', k), None))
+        # the bare machine on its input with one length/count/size byte altered, and on prefixes of it
+        for j in range(min(len(data), 12)):
+            for delta in (1, 255, 2):
+                mut = bytearray(data); mut[j] = (mut[j] + delta) & 0xFF
+                out.append(('%s~byte%d' % (name, j), (lambda mk=mk: A.dfa(name='bare', context='w', initial=mk(), terminal=True)), bytes(mut), None, None))
+        for cut in range(0, len(data), 2):
+            out.append(('%s[:%d]' % (name, cut), (lambda mk=mk: A.dfa(name='bare', context='w', initial=mk(), terminal=True)), data[:cut], None, None))
     return out
 
 
@@ -403,6 +417,29 @@ def run(ctx):
 
     # ---- C
     lc = lib_cases(ctx.thorough, rng)
+    # ... through the engine interpreter: decide predicates and callable limits answered from the tapes of the implementation's run
+    leng, lmeta, lunsup = [], [], {}
+    for name, mk, data, expect, field in lc:
+        m = mk()
+        try:
+            d = G.dump_machine(m)
+        except G.Unsupported as e:
+            lunsup[name.split('(')[-1].split(')')[0].split('~')[0].split('[')[0]] = str(e); continue
+        leng.append((m, d, data)); lmeta.append(name)
+    nlibeng = 0
+    for name, (m, d, data), (ir, mr) in zip(lmeta, leng, G.run_both(leng)):
+        nlibeng += 1
+        if mr[0] == 'fail' and mr[1] == 9:
+            raise core.HarnessError('engine model out of fuel on %s %r' % (name, data))
+        if not G.same(ir, mr, data=not d.has_decide):
+            ndis += 1
+            if first is None or first.get('part') != 'library machine through the engine interpreter':
+                first = dict(part='library machine through the engine interpreter', machine=name, input=list(data), impl=repr(ir)[:200], model=repr(mr)[:200],
+                             decide_outcomes=list(d.dec_tape)[:20])
+            if ir[0] == 'ok' and mr[0] == 'fail' and mr[1] in (2, 3) and nbad < 4:
+                nbad += 1
+                ctx.violation(dict(machine=name, input=list(data), implementation=repr(ir)[:200], reference_engine=repr(mr)),
+                              'library parser completed where the limit / repeat rules of the engine require a failure')
     nlib, nlib_ok, nevents = 0, 0, 0
     with Monitor() as mon:
         for name, mk, data, expect, field in lc:
@@ -430,15 +467,18 @@ def run(ctx):
                     if nbad <= 6:
                         ctx.violation(dict(machine=name, input=list(data), sent=sent, framing_from_bytes=expect, field=field),
                                       'parser completed having consumed a different number of symbols than its length field allows')
-    cov['evaluations'] = len(cases) + len(eng) + nlib
+    cov['evaluations'] = len(cases) + len(eng) + nlib + nlibeng
+    cov['library_machines_outside_the_interpreter'] = lunsup
     cov['distinct_nontrivial'] = nsrc_nontrivial + nok + nlib_ok
     cov['exhaustive'] = False
     cov['rule'] = ('A: %d random op sequences (next/push/peek/chain, mostly legitimate pushes) on peeking/chaining/remembering; '
                    'B: %d machine graphs (8 leaves x fixed limits 0..5, limit followed by an outer symbol, 6 length/count-prefixed bodies, '
                    'regex repeats 0..3, nested repeat in limit) x %s inputs over {a,b} up to length 5 = %d runs, %d completing; '
-                   'C: %d runs of SSTRING/STRING/enip_machine/CPF with length fields -3..+3 off and trailing bytes, and 8 library parsers under '
-                   'every outer limit, under the run/delegate monitor (%d limit resolutions observed), %d completing'
-                   % (len(cases), len(z), 'all' if ctx.thorough else 'sampled', len(eng), nok, nlib, nevents, nlib_ok))
+                   'C: %d runs of SSTRING/STRING/enip_machine/CPF with length fields -3..+3 off and trailing bytes, 13 library parsers (SSTRING, STRING, EPATH, '
+                   'EPATH_padded, status, typed_data x4, CPF, enip_machine, unconnected_send, send_data) under every outer limit, with one byte altered and truncated, '
+                   'under the run/delegate monitor (%d limit resolutions observed), %d completing; %d of these runs also through the engine interpreter with the decide / '
+                   'callable-limit outcomes of the implementation as oracle tapes'
+                   % (len(cases), len(z), 'all' if ctx.thorough else 'sampled', len(eng), nok, nlib, nevents, nlib_ok, nlibeng))
     cov['impl_model_disagreements'] = ndis
     cov['impl_property_failures'] = nbad
     if ndis and not nbad:
@@ -448,8 +488,8 @@ def run(ctx):
         ctx.notes.append(repr(first)[:1500])
     for (name, inp, orc), (ir, mr) in list(zip(emeta, both))[:: max(1, len(emeta) // 4)][:4]:
         ctx.sample(dict(machine=name, input=list(inp), impl=repr(ir)[:200]))
-    ctx.assumptions += ['decide / predicate edges and callable limits are outside the interpreter model: the library parsers that use them '
-                        'are checked on the implementation by the monitor and the byte-level framing oracle only',
+    ctx.assumptions += ['decide predicates and callable limits are external calls of the interpreter model: their outcomes are taken from the implementation\'s own run '
+                        '(oracle tapes); move_if side effects on the data are not modelled, so for those machines status / consumed count / terminal are compared, not the data',
                         'inputs are completely available (chunked feeding is covered for regex machines in C11 and frames in C02)']
 
 
